@@ -2,7 +2,7 @@
 from pyvc.api import *
 from pyvc.spec import callee_of
 
-SPEC_IMPORTS = ['contracts.common', 'contracts.c15']
+SPEC_IMPORTS = ['contracts.common', 'contracts.c15', 'contracts.c03']
 SPEC_FUNCTIONS = ['doc_sort_key', 'name_with_symbols_spec', 'match_spec', 'sorted_spec']
 REC_FUNCTIONS = {'gsub': ([('l', STR), ('s', STR)], BOOL)}
 
@@ -382,5 +382,6 @@ def register(reg):
 def dynamic_contracts(repo):
     """(f) attribute completeness after `expr.`: the class hierarchy (MRO) of every value is produced by a memoised
     generator; every consumer must see ALL its elements (contract shared with C15)"""
-    from contracts import c15
-    return [c15._gen_cache]
+    from contracts import c15, c03
+    # ... and the module's global filter (names declared `global` anywhere in the module) is complete (shared with C03)
+    return [c15._gen_cache, c03._global_values]
